@@ -117,7 +117,8 @@ def _perform_decrypt(obj: EncryptionData, registry: JWERegistry) -> None:
     if len(cek) * 8 != enc.cek_size:  # pragma: no cover
         raise InvalidCEKLengthError(f"A key of size {enc.cek_size} bits MUST be used")
 
-    aad = json_b64encode(obj.protected)
+    # the Encoded Protected Header exactly as received, not a re-encoding of the parsed header
+    aad = obj.base64_segments["aad"]
     if isinstance(obj, BaseJSONEncryption) and obj.aad:
         aad = aad + b"." + urlsafe_b64encode(obj.aad)
 
